@@ -52,7 +52,7 @@ def run_job(arg):
         if l.startswith("#"):
             h = l[1:].split(" ", 1)[0]
             if h.isdigit():
-                got[int(h)] = l
+                got[int(h)] = l if int(h) not in got else got[int(h)] + "  ++REPORTED AGAIN++  " + l      # a case reports exactly once
     ref = run_ref([(i, b) for i, _, b in progs])
     mism, unsupported, outcomes = [], 0, {}
     for i, desc, body in progs:
